@@ -224,3 +224,45 @@ def mc_run(name, module, cfg_text, timeout=3600, coverage=False, workers=16, env
     return {'name': name, 'module': module, 'states': r['distinct'], 'transitions': r['generated'], 'depth': r['depth'],
             'wall_s': round(r['wall_s'], 1), 'violated': r['violated'],
             'coverage': tlc.coverage_counts(r['out']) if coverage else None}
+
+
+def run_pairs(pdescs):
+    out = pool_map('harness.tracer', 'run_pair', pdescs)
+    pairs, inexact = [], []
+    for d, t in zip(pdescs, out):
+        if 'inexact' in t:
+            inexact.append({'name': d.get('name', ''), 'why': t['inexact']})
+            continue
+        t['tid'] = len(pairs) + 1
+        t['_desc'] = d
+        pairs.append(t)
+    return pairs, inexact
+
+
+def judge_pairs(out, pairs, clause_prefixes, known_matcher=None):
+    """ TLC replays the pairs in lock-step (spec/TracePair.tla) """
+    def as_trace(p):
+        q = strip(p)
+        q['events'] = q['a']['events']           # for shard balancing and the completeness count
+        return q
+    flat = [as_trace(p) for p in pairs]
+    verdicts, stats = tlc.validate_traces(flat, module='TracePair')
+    bytid = {p['tid']: p for p in pairs}
+    marks_by = []
+    for tid, vs in verdicts.items():
+        p = bytid[tid]
+        allm = set()
+        for step, fails, marks in sorted(vs):
+            allm.update(marks)
+            for c in fails:
+                if c.startswith('X_'):
+                    raise Machinery(f"pair {p['name']}: {c} at step {step} (the driver did not produce the intended relation)")
+                if any(c.startswith(pre) for pre in clause_prefixes):
+                    ev = p['a']['events'][step - 1]
+                    out.violation(c, 'pair', {'desc': p['_desc'], 'clause': c, 'step': step},
+                                  f"pair={p['name']} kind={p['kind']} step={step} op={ev['op']}({ev.get('arg', '')})", known_matcher)
+                else:
+                    out.other[c] = out.other.get(c, 0) + 1
+        marks_by.append(allm)
+    out.add_marks(marks_by)
+    return verdicts, stats
